@@ -44,11 +44,12 @@ structure World where
   /-- ghost flag, never read by the model: some unification bound a variable to a term that
       contains it (no occurs check). Such runs are "unspecified" and are not compared. -/
   cyc : Bool := false
-  /-- Python semantics of the emitted code only (`Yld.Model.Py`): the flag variables (`doBreak`,
-      `cutIf<n>`) of the generator frames whose `for` loop is in progress, innermost first. A frame's
-      flags are here while control is inside the generator the loop iterates over, and in the frame
-      itself otherwise. The engine model never reads or writes this field. -/
-  py : List (List (String × Bool)) := []
+  /-- Python semantics of the emitted code only (`Yld.Model.Py`): the local variables (those that
+      hold terms, and the flag variables `doBreak`, `cutIf<n>`) of the generator frames whose `for`
+      loop is in progress, innermost first. A frame's locals are here while control is inside the
+      generator the loop iterates over, and in the frame itself otherwise. The engine model never
+      reads or writes this field. -/
+  py : List (List (String × Term) × List (String × Bool)) := []
 deriving Inhabited
 
 abbrev R := World × Option Sig
